@@ -114,14 +114,91 @@ class _Guard:
             signal.signal(signal.SIGALRM, old)
 
 
+def _pmap_worker(fn, items, idxs, conn):
+    """Runs in a forked child: items[idx] one by one, every result sent to the parent as soon as it exists."""
+    try:
+        for idx in idxs:
+            conn.send(('start', idx, None))
+            try:
+                res = fn(items[idx])
+            except BaseException as ex:  # pylint: disable=broad-except
+                res = _HarnessFailure('%s: %r' % (type(ex).__name__, ex))
+            conn.send(('done', idx, res))
+    finally:
+        conn.close()
+
+
+class _HarnessFailure:
+    """Result placeholder for an item whose worker died or had to be killed."""
+
+    def __init__(self, what):
+        self.what = what
+
+
 def pmap(fn, items, nproc=None, chunk=1, item_timeout=600):
-    """Parallel map with forked workers (each boots its own machines)."""
+    """Parallel map with forked workers (each boots its own machines).  A worker that hangs on an item (busy loop that
+    swallows the alarm of _Guard, dead-locked thread) is killed by the parent after item_timeout + 60 s; the item gets
+    the result fn would give for a crash ({'ev': [{'op': 'crash', ...}]}) and a fresh worker takes over the rest."""
+    import time as _time
     items = list(items)
-    if item_timeout:
-        fn = _Guard(fn, item_timeout)
+    del chunk
+    guarded = _Guard(fn, item_timeout) if item_timeout else fn
     nproc = min(nproc or int(os.environ.get('VERIF_NPROC', '16')), max(1, len(items)))
     if nproc <= 1:
-        return [fn(x) for x in items]
+        return [guarded(x) for x in items]
     ctxm = multiprocessing.get_context('fork')
-    with ctxm.Pool(nproc) as pool:
-        return pool.map(fn, items, chunksize=chunk)
+    results = [None] * len(items)
+    todo = [list(range(k, len(items), nproc)) for k in range(nproc)]     # static interleaved slices
+    workers = {}        # slot -> [process, conn, current idx, started at]
+
+    def spawn(slot):
+        if not todo[slot]:
+            return
+        parent, child = ctxm.Pipe(duplex=False)
+        pr = ctxm.Process(target=_pmap_worker, args=(guarded, items, list(todo[slot]), child))
+        pr.daemon = True
+        pr.start()
+        child.close()
+        workers[slot] = [pr, parent, None, _time.time()]
+
+    for slot in range(nproc):
+        spawn(slot)
+    limit = (item_timeout or 600) + 60
+    while workers:
+        for slot in list(workers):
+            pr, conn, cur, t0 = workers[slot]
+            dead = False
+            try:
+                while conn.poll(0.02):
+                    kind, idx, res = conn.recv()
+                    if kind == 'start':
+                        workers[slot][2], workers[slot][3] = idx, _time.time()
+                    else:
+                        results[idx] = res
+                        todo[slot].remove(idx)
+                        workers[slot][2] = None
+            except (EOFError, OSError):
+                dead = True
+            cur, t0 = workers[slot][2], workers[slot][3]
+            if not dead and not todo[slot]:
+                pr.join(5)
+                del workers[slot]
+                continue
+            hung = cur is not None and _time.time() - t0 > limit
+            if dead or hung or not pr.is_alive():
+                if pr.is_alive():
+                    pr.kill()
+                pr.join(5)
+                del workers[slot]
+                if todo[slot]:
+                    bad = cur if cur is not None else todo[slot][0]
+                    results[bad] = _HarnessFailure('worker %s on this item' % ('hung (killed after %ds)' % limit if hung else 'died'))
+                    todo[slot].remove(bad)
+                    spawn(slot)
+    out = []
+    for idx, r in enumerate(results):
+        if isinstance(r, _HarnessFailure) or r is None:
+            # the shape every driver's exec function returns for a crash
+            r = {'ev': [{'op': 'crash', 'what': 'harness: %s' % (r.what if r is not None else 'no result')}], '_harness': True}
+        out.append(r)
+    return out
